@@ -15,12 +15,14 @@ Change  == IsEvent("Change")  /\ ChangeOk(R.p, st)            /\ st' = AfterChan
 Sub     == IsEvent("Sub")     /\ SubOk(R.s, R.t, st)          /\ st' = AfterSub(R.s, R.t, st)
 Begin   == IsEvent("Begin")   /\ BeginOk(R.s, R.t, st)        /\ st' = AfterBegin(R.s, R.t, st)
 Deliver == IsEvent("Deliver") /\ DeliverOk(R.s, R.p, R.v, st) /\ st' = AfterDeliver(R.s, R.p, R.v, st)
+Event   == IsEvent("Event")   /\ EventOk(st)                   /\ st' = AfterEvent(st)
+DelivEv == IsEvent("DeliverEv") /\ DeliverEvOk(R.s, R.lo, R.hi, st) /\ st' = AfterDeliverEv(R.s, R.lo, R.hi, st)
 End     == IsEvent("End")     /\ EndOk(R.s, R.r, R.t, st)     /\ st' = AfterEnd(R.s, R.r, R.t, st)
 Gone    == IsEvent("Gone")    /\ GoneOk(R.s, st)              /\ st' = AfterGone(R.s, st)
 Pass    == IsEvent("Pass")    /\ PassOk(R.t, st)              /\ UNCHANGED st
 Wake    == IsEvent("Wake")    /\ WakeOk(R.w, st)              /\ UNCHANGED st
 Quiet   == IsEvent("Quiet")   /\ QuietOk(st)                  /\ UNCHANGED st
-Next == Reset \/ Change \/ Sub \/ Begin \/ Deliver \/ End \/ Gone \/ Pass \/ Wake \/ Quiet
+Next == Reset \/ Change \/ Sub \/ Begin \/ Deliver \/ Event \/ DelivEv \/ End \/ Gone \/ Pass \/ Wake \/ Quiet
 Spec == Init /\ [][Next]_vars
 TraceAccepted ==
   LET d == TLCGet("stats").diameter IN
